@@ -240,6 +240,7 @@ class Ctx:
                 other = self.module_env(r[0], unroll)
                 gv[name] = T.mk_obj(('g', name), {k: v for k, v in other.items() if T.concrete(v)})
         pe = self.pe(rel, unroll=unroll, global_values=gv, module_mode=True)
+        pe.module_funcs = {k: v for k, v in m.functions.items() if '.' not in k}     # a table may be built by a module function of constants
         body = [s for s in m.tree.body if not _is_main_guard(s) and not isinstance(s, (ast.Import, ast.ImportFrom))]
         env = {}
         try:
